@@ -81,9 +81,10 @@ class VObj(V):
 
 class VAny(V):
     """An opaque value.  notnone=True: known not to be None (an object returned by a library call)."""
-    def __init__(self, t, notnone=False):
+    def __init__(self, t, notnone=False, kindtag=None):
         self.t = t
         self.notnone = notnone
+        self.kindtag = kindtag          # 'regex' for compiled regular expressions
 
     def __repr__(self):
         return 'VAny(%s)' % self.t
@@ -109,6 +110,16 @@ class VPat(V):
 
     def __repr__(self):
         return 'VPat(%s,%s,%r)' % (self.iseof, self.isto, self.payload)
+
+
+class VUnion(V):
+    """A value that is one of several alternatives, selected by `tag` (an Int term): alts = [(label, value)].
+    Resolved (case split) when a local variable holding it is read."""
+    def __init__(self, tag, alts):
+        self.tag, self.alts = tag, list(alts)
+
+    def __repr__(self):
+        return 'VUnion(%s, %s)' % (self.tag, [a for a, _ in self.alts])
 
 
 class VHidden(V):
